@@ -41,6 +41,7 @@ def run(ctx: Ctx):
     # average over the target set and the clamped divisors by value, and the shape-based clauses below are not consulted
     table_decided = _loss_tail_table(ctx, f, rel)
     _validation_head_table(ctx, f, rel)
+    SC.completion_table(ctx, "S6")
     # ---- S2 one sentinel: padding of the targets == ignore_index of cross_entropy == the padding mask constant ----
     ce = [c for c in own_calls(f.node) if call_name(c).endswith("cross_entropy")]
     okce = len(ce) == 1 and kwarg(ce[0], "ignore_index") is not None and u(kwarg(ce[0], "ignore_index")) == "ignore_index" \
